@@ -19,7 +19,7 @@ RULE = (
     "2..3 endpoints, each a real thread with a script projected from a global message plan (<=4 sends per endpoint; "
     "connect, send, send_structured, blocking recv, non-blocking recv, disconnect; plain and callback delivery; 1..2 socket "
     "ids) plus a schedule = list of small ints choosing the next thread at every statement of the hub; Hypothesis draws both; "
-    "thorough also enumerates all schedules with <=3 preemptions for small two-endpoint scripts.  Non-trivial = >=1 "
+    "both tiers enumerate every single-preemption schedule of five fixed scripts; thorough also enumerates all schedules with <=3 preemptions for small two-endpoint scripts.  Non-trivial = >=1 "
     "preemption inside a hub method and >=2 messages sent; distinct by (scripts, schedule)"
 )
 ASSUMPTIONS = [
@@ -47,10 +47,10 @@ def st_schedule(draw):
 
 @st.composite
 def st_scenario(draw):
-    special = draw(st.integers(0, 9)) == 0
+    special = draw(st.integers(0, 9)) <= 1
     if special:
-        # one side opens and closes before the other arrives
-        return {"kind": "open-close", "schedule": draw(st_schedule())}
+        # one side opens and closes before the other arrives / notices
+        return {"kind": draw(st.sampled_from(["open-close", "late-open-close"])), "schedule": draw(st_schedule())}
     n_end = draw(st.sampled_from([2, 2, 3]))
     names = ["a", "b", "c"][:n_end]
     pairs = [("a", "b")] + ([draw(st.sampled_from([("a", "c"), ("b", "c")]))] if n_end == 3 else [])
@@ -135,6 +135,9 @@ def run(scn) -> Dict[str, Any]:
     socks: Dict[Tuple[str, str, int], Any] = {}
     if scn["kind"] == "open-close":
         scripts = {"a": [["connect", "b", 0, "plain"], ["disconnect", "b", 0]], "b": [["connect", "a", 0, "plain"], ["send", "a", 0, "late"]]}
+    elif scn["kind"] == "late-open-close":
+        # a starts first and polls; b arrives, sends and closes (possibly all inside one of a's poll sleeps)
+        scripts = {"a": [["connect", "b", 0, "plain"], ["recv", "b", 0, False]], "b": [["connect", "a", 0, "plain"], ["send", "a", 0, "hello"], ["disconnect", "a", 0]]}
     else:
         scripts = build_scripts(scn)
 
@@ -201,6 +204,15 @@ def run(scn) -> Dict[str, Any]:
             ev = [x for x in log if x[0] == "b"]
             if not any(x[1] == "connected" for x in ev):
                 raise Failure("connect-never-returns", case, f"b never connected although a had opened (and closed) its socket; log {log}")
+            return info
+        if scn["kind"] == "late-open-close":
+            if not any(x[0] == "a" and x[1] == "connected" for x in log):
+                raise Failure("connect-never-returns", case, f"a never found its peer although b opened its socket (and closed it again); log {log}")
+            sent_ok = any(x[0] == "b" and x[1] == "sent" for x in log)
+            got = [x[4] for x in log if x[0] == "a" and x[1] == "recv"]
+            if sent_ok and got != ["hello"]:
+                raise Failure("delivery:lost", case, f"b sent 'hello' before closing but a received {got}; log {log}")
+            info["sent"] = 2 if sent_ok else 0
             return info
         # ---------------- oracle per direction and socket id
         sent: Dict[Tuple[str, str, int], List[str]] = {}
@@ -289,6 +301,43 @@ def shard(ctx: Ctx) -> None:
         stt.case(scn, nt, labels, sample=scn if len(str(scn)) < 900 else None)
 
     ctx.search(st_scenario(), body, n, name="c18")
+
+    # systematic part (both tiers): for a few fixed scripts, every schedule with exactly one preemption (thread choice 1
+    # or 2 at one position, sequential otherwise), over the whole length of the run
+    def plan(src, dst, k, structured=False, recv="block"):
+        return {"src": src, "dst": dst, "sid": 0, "msg": f"m{k}", "structured": structured, "recv": recv}
+
+    fixed = [
+        {"kind": "plan", "names": ["a", "b"], "extra_nb": [], "disconnect": {"a": False, "b": False},
+         "conns": [{"x": "a", "y": "b", "sid": 0, "mode": {"a": "plain", "b": "plain"}}], "plan": [plan("a", "b", 0), plan("a", "b", 1), plan("a", "b", 2)]},
+        {"kind": "plan", "names": ["a", "b"], "extra_nb": [], "disconnect": {"a": False, "b": False},
+         "conns": [{"x": "a", "y": "b", "sid": 0, "mode": {"a": "plain", "b": "cb"}}], "plan": [plan("a", "b", 0), plan("a", "b", 1)]},
+        {"kind": "plan", "names": ["a", "b"], "extra_nb": [], "disconnect": {"a": True, "b": True},
+         "conns": [{"x": "a", "y": "b", "sid": 0, "mode": {"a": "plain", "b": "plain"}}], "plan": [plan("a", "b", 0), plan("b", "a", 1, recv="nb-then-block"), plan("a", "b", 2, structured=True)]},
+        {"kind": "late-open-close"},
+        {"kind": "open-close"},
+    ]
+    k = 0
+    n_sys = 0
+    for scn0 in fixed:
+        base = run(dict(scn0, schedule=[]))
+        nsteps = base["steps"] if not base.get("inconclusive") else 0
+        for pos in range(nsteps + 1):
+            for choice in (1, 2):
+                k += 1
+                if k % ctx.nshards != ctx.shard:
+                    continue
+                scn = dict(scn0, schedule=[0] * pos + [choice])
+                n_sys += 1
+                try:
+                    info = run(scn)
+                    if not info.get("inconclusive"):
+                        stt.case(scn, info["preemptions"] >= 1 and info.get("sent", 0) >= 2, ["single-preemption"])
+                    else:
+                        stt.rejected["inconclusive:" + info["inconclusive"].split(":")[0]] += 1
+                except Failure as f:
+                    ctx.fail(f)
+    stt.exhaustive_domains["five fixed scripts x every single-preemption schedule"] = n_sys
     if ctx.thorough():
         base = {
             "kind": "plan", "names": ["a", "b"], "extra_nb": [], "disconnect": {"a": False, "b": False},
